@@ -264,6 +264,7 @@ fn jwt_claim(kind: &str, cs: u64, salt: u64) -> Option<String> {
     Some(match kind {
         "absent" => return None,
         "past" => [n - 3600, n - 86400 * 400, 1, 0][v].to_string(),
+        "lapsed" => (n + 1).to_string(),       // (run_jwt idles before it presents the token)
         "future" => [n + 3600, n + 86400 * 3650, 4102444800, u64::MAX][v].to_string(),
         "pastf" => [format!("{}.5", n - 3600), "1.0e9".to_string(), "100000.25".to_string(), format!("{}.0", n - 86400)][v].clone(),
         "futuref" => [format!("{}.5", n + 3600), "4.0e9".to_string(), "9.9e12".to_string(), format!("{}.0", n + 86400)][v].clone(),
@@ -496,6 +497,12 @@ fn run_jwt(scn: &Value) -> Value {
     let (mut n_same, mut n_diff, mut n_err, mut n_noerr, mut n_panic) = (0, 0, 0, 0, 0);
     let (mut ex_ran, mut ex_diff, mut ex_err, mut ex_noerr, mut ex_panic) = (String::new(), String::new(), String::new(), String::new(), String::new());
     let mut statuses: Vec<i64> = vec![];
+    if s(&tok["exp"]) == "lapsed" {
+        // an exchange with the server (a request without a token, answered 401), then nothing for more than two seconds: no request, no response,
+        // nothing that would make the process look at the clock -- and then the token, one second after its `exp`
+        let _ = exchange(&router, &request_bytes(method, path, &[]), method == "HEAD");
+        std::thread::sleep(std::time::Duration::from_millis(2300));
+    }
     for (t, payload) in &variants {
         let mut lines = jwt_transport(s(&tok["via"]), s(&cfg["getter"]), t);
         if s(&cfg["mount"]) == "stacked" { lines.push(("X-Outer".to_string(), if s(&tok["skey"]) == "outer" { t.clone().into_bytes() } else { outer_token(cfg, &secret).into_bytes() })) }
